@@ -218,6 +218,10 @@ func init() {
 	register(&opDef{name: "mod.quo", weight: 6,
 		gen: func(r *vh.Rng, g *genCtx) *tcase {
 			c := genMod(1, false)(r, g)
+			if r.Intn(3) == 0 { // boundary family: quotient 2^j, 2^j +- 1, tight announcements
+				x, m := g.divBoundary(r, false, g.maxBits/2)
+				c = &tcase{args: []*big.Int{m, x, zi(tightCap(r, x))}, mode: c.mode}
+			}
 			// Quo sizes the quotient like the modulus; operands whose quotient does not fit are out of contract
 			lim := new(big.Int).Lsh(c.args[0], uint(c.args[0].BitLen()))
 			if c.args[1].Cmp(lim) >= 0 {
@@ -384,7 +388,7 @@ func init() {
 		gen: func(r *vh.Rng, g *genCtx) *tcase {
 			c := genMod(1, false)(r, g)
 			if c.args[0].BitLen() > 1100 && r.Intn(3) != 0 {
-				return genMod(1, false)(vh.NewRng(int64(r.Uint64()), "C17", "sqrt-small", 0), &genCtx{maxBits: 600, sizes: g.sizes, primes: g.primes, special: g.special})
+				return genMod(1, false)(vh.NewRng(int64(r.Uint64()), "C17", "sqrt-small", 0), &genCtx{tight: g.tight, maxBits: 600, sizes: g.sizes, primes: g.primes, special: g.special})
 			}
 			return c
 		},
@@ -547,7 +551,7 @@ func init() {
 	// ---- crt.Recombine(mp, mq, p, q)
 	register(&opDef{name: "crt.recombine", weight: 20,
 		gen: func(r *vh.Rng, g *genCtx) *tcase {
-			h := &genCtx{maxBits: g.maxBits / 2, sizes: g.sizes, primes: g.primes, special: g.special}
+			h := &genCtx{tight: g.tight, maxBits: g.maxBits / 2, sizes: g.sizes, primes: g.primes, special: g.special}
 			pm, qm := h.modulus(r), h.modulus(r)
 			switch r.Intn(12) {
 			case 0:
